@@ -133,7 +133,8 @@ CLAIMED.update({
               "real distribution families are evaluated (single entries, per-feature scales, two competing events with opposite "
               "censoring flags) and compared with the evaluated term; TLC checks that every case conforms and that the records cover "
               "the case space (LikelihoodTrace.tla); model-level variables (individual priors, Gaussian attachment over observed "
-              "entries, event attachment with an event moved before the reference time) are compared entry by entry with the same terms."),
+              "entries, event attachment with an event moved before the reference time) are compared entry by entry with the same terms; "
+              "events 2^-15 before / after the reference time are cases of their own (CloseIsOrdinary); an exception inside the support is a mismatch."),
         note=("Level 'other': the decision 'equals the density' rests on the generic float64 term evaluator (harness/terms.py) applied "
               "to terms stated in TLA+; TLC decides the case structure, coverage and the structural invariants. Tolerance 2e-4 "
               "relative (5e-4 Weibull)."),
@@ -147,7 +148,8 @@ CLAIMED.update({
               "each request is run through model.estimate on one model object per configuration whose parameters are replaced in place "
               "before every request, with seeded individual parameters and ages (sometimes exactly 0 or the reference time); TLC checks "
               "the returned rows against the layout machine and the verdicts (TrajectoryTrace.tla): values equal the evaluated term, "
-              "outputs in [0,1], non-decreasing in age, 1/(1+g) at the reference time, finite far away."),
+              "outputs in [0,1], non-decreasing in age, 1/(1+g) at the reference time, finite far away; the joint model takes part with the "
+              "dictionary layout (longitudinal columns)."),
         note=("Level 'other': value equality rests on the generic float64 term evaluator applied to TLA+ terms (tolerance 2e-5 + 2e-4 "
               "relative); TLC decides the layout machine exhaustively on the enumerated requests. Known finding: repeated rows in "
               "MultiIndex requests are multiplied."),
@@ -174,8 +176,10 @@ CLAIMED.update({
               "combination of print / save / plot / patient-plot periodicities, output path, folder state and overwrite flag; "
               "a covering sample of logging configurations is run as real fits whose per-iteration outputs, absence of mutation "
               "of the state and of the three RNG streams by the logging step, completion and bit-identity of the fitted "
-              "parameters with the run without logging (also after RNG consumption and unrelated fits) are validated by TLC "
-              "against SaemTrace.tla."),
+              "parameters with the run without logging (also after RNG consumption, unrelated fits, a switch of torch's default dtype, "
+              "a relative logs path with a change of directory in between, re-used algorithm objects and settings that travelled through a "
+              "file) are validated by TLC against SaemTrace.tla; the seeded fit / personalization / simulations are repeated in fresh "
+              "interpreters under two string-hash seeds."),
         note=("Bit-identity is judged within one process on model.parameters. Trusted: TLC, recorder wrappers."),
         technique="TLA+ spec + TLC exhaustive; code->spec trace validation; seeded re-execution",
         design_ref="4/C11, 3.3"),
@@ -222,7 +226,8 @@ CLAIMED.update({
               "declarations over 4 nodes (unknown references and self loops included); the real VariablesDAG is run on every "
               "declaration over 3 nodes (4 in the thorough tier), on thousands of sampled DAGs / digraphs / dirty declarations "
               "up to 8 nodes with shuffled insertion orders, and on the graph of every shipped model kind, and TLC compares "
-              "each recorded result (exception class, order, ordered closures) with Build(par) (VarGraphTrace.tla)."),
+              "each recorded result (exception class, order, ordered closures) with Build(par) (VarGraphTrace.tla); both construction routes, "
+              "a user-defined variable kind and linked variables without dependencies are part of the declarations."),
         note=("Exhaustive up to 4 nodes at design level and 3 (quick) / 4 (thorough) nodes at code level; larger graphs sampled. "
               "Refusals are compared by exception class."),
         technique="TLA+ transcription + TLC exhaustive; code->spec conformance of recorded results",
@@ -302,7 +307,7 @@ CLAIMED.update({
               "made concrete and run on a real fitted model under a 10 s watchdog; TLC compares the outcome class (completes / "
               "refused / crash class / timeout) with Outcome and checks the post-conditions of completed runs: exact individuals, "
               "unique increasing ages rounded to the precision implied by the spacing, finite values in [0,1] for every feature, one "
-              "parameter set per individual (SimDesignTrace.tla)."),
+              "parameter set per individual, and the caller's design untouched and honoured again by a second simulation (SimDesignTrace.tla)."),
         note=("The ten deviations found on the tree as given (D2-D11) were repaired by 'fix:' commits; the specification keeps the "
               "named-deviation mechanism (constant Deviations, empty). Non-termination is judged by a 10 s watchdog (valid small "
               "designs take < 1 s)."),
@@ -315,7 +320,8 @@ CLAIMED.update({
               "cases (specs/Benchmarks.tla: LastKnownExtendsLast, MeanBetween, Shrinks); every enumerated case (x the previous use of the same model "
               "object: fresh / another data set with swapped columns or other feature names / trajectories of other individuals) is run "
               "through ConstantModel.personalize / estimate and, with parameters injected through load_parameters, through "
-              "LMEModel.personalize / estimate, and asked twice; TLC compares the results, as numerators over the specification's denominators, with "
+              "LMEModel.personalize / estimate (half of the LME cases with an extra visit whose value is missing), and asked twice - the second time "
+              "with the individual parameters rebuilt in another key order; TLC compares the results, as numerators over the specification's denominators, with "
               "the specification (BenchmarksTrace.tla); fitted univariate cohorts with and without random slope are compared with "
               "the reference mixed-model library's random effects on the training individuals."),
         note=("Exact on the enumerated cases (float64 results compared with rationals within 1e-9 relative); agreement with the "
